@@ -145,6 +145,12 @@ func TestVerifC01(t *testing.T) {
 	for i := 0; i < nRandKeys; i++ {
 		keys = append(keys, randScalar(rng))
 	}
+	// keys whose d+1 (the value the signer inverts) has a carry-critical internal representation
+	for _, v := range montgomeryPatternScalars(rng, 40)[:10] {
+		if d := new(big.Int).Sub(v, bi(1)); ref.ValidPriv(d) {
+			keys = append(keys, d)
+		}
+	}
 	// keys with short encodings
 	for _, l := range []int{1, 2, 8, 16, 24, 31} {
 		keys = append(keys, new(big.Int).SetBytes(append([]byte{1 + byte(rng.Intn(255))}, rng.Bytes(l-1)...)))
